@@ -62,6 +62,20 @@ Theorem listener_timer_closes_idle_sessions :
 Proof. intros s C I. unfold lstep. rewrite C, I. reflexivity. Qed.
 Print Assumptions listener_timer_closes_idle_sessions.
 
+(* the speedtest handler's session loop has the same shape (tests running instead of requests in service):
+   its timer never closes a session with a test running, and closes an idle one *)
+Theorem speedtest_timer_spares_running_tests_only :
+  (forall es, closed_by_timer (lrun SPEEDTEST_TIMER_SPARES_RUNNING_TESTS_ONLY es) = true ->
+              closed_with (lrun SPEEDTEST_TIMER_SPARES_RUNNING_TESTS_ONLY es) = 0%nat)
+  /\ (forall s, closed_by_timer s = false -> in_service s = 0%nat ->
+                closed_by_timer (lstep SPEEDTEST_TIMER_SPARES_RUNNING_TESTS_ONLY s LExpire) = true).
+Proof.
+  split.
+  - exact listener_timer_spares_sessions_in_service.
+  - exact listener_timer_closes_idle_sessions.
+Qed.
+Print Assumptions speedtest_timer_spares_running_tests_only.
+
 (* the defect this exposed: without the test of requests in service the timer closes a session
    that is relaying a tunnel *)
 Example ex_listener_as_found : closed_with (lrun false [LAccept; LExpire]) = 1%nat /\ closed_by_timer (lrun true [LAccept; LExpire]) = false.
@@ -107,7 +121,8 @@ Theorem establishment_timeouts_in_place :
   CONNECT_UNDER_ESTABLISHMENT_TIMEOUT = true /\ TIMEOUT_REPORTED_AS_502_302 = true
   /\ TLS_ACCEPT_UNDER_HANDSHAKE_TIMEOUT = true /\ PIPE_RUN_WITH_TCP_TIMEOUT = true
   /\ PIPE_EXPIRY_AS_MODELLED = true /\ PIPE_AWAITS_AS_MODELLED = true
-  /\ LISTENER_TIMEOUT_SPARES_ACTIVE_SESSIONS = true /\ CLIENT_HELLO_UNDER_HANDSHAKE_TIMEOUT = true.
+  /\ LISTENER_TIMEOUT_SPARES_ACTIVE_SESSIONS = true /\ CLIENT_HELLO_UNDER_HANDSHAKE_TIMEOUT = true
+  /\ SPEEDTEST_TIMER_SPARES_RUNNING_TESTS_ONLY = true.
 Proof. repeat split; exact eq_refl. Qed.
 Print Assumptions establishment_timeouts_in_place.
 
